@@ -32,8 +32,8 @@ RULE = (
     "joint states"
 )
 BOUNDS = {
-    "quick": "TREE(N<=4), FOLLOW(N<=3), FEATURE machines; closure",
-    "thorough": "TREE(N<=5), FOLLOW(N<=4), FEATURE machines; closure",
+    "quick": "TREE(N<=4), FOLLOW(N<=3), FEATURE machines, 3 key-colliding machines x every target respelling; closure",
+    "thorough": "TREE(N<=5), FOLLOW(N<=4), FEATURE machines, 6 key-colliding machines x every target respelling; closure",
 }
 ASSUMPTIONS = [
     "start-up pseudo events ('___xstate_statemachine_init___' / 'entry.<id>') are normalised to INIT",
@@ -48,6 +48,9 @@ def units(tier: str) -> List[Any]:
     us: List[Any] = [("tree", t) for t in F.trees_upto(n)] + [("tree", t) for t in F.par_skeletons(tier)]
     us += [("follow", spec) for spec in follow.specs(3 if tier == "quick" else 4)]
     us += [("feature", name) for name in features.names()]
+    from . import c18
+
+    us += [("collide", name) for name in c18.collide_machines(tier)]
     return us
 
 
@@ -233,8 +236,33 @@ def explore(cfg, nodes, events, *, label, replay, shape="", guard_impls=None, ex
     return res
 
 
+def run_collide(name: str, only=None):
+    """Key-colliding machines (C18's COLLIDE family), every transition target respelled in every equivalent spelling: the
+    three engines resolve targets in duplicated code, so each respelled machine is compared across them."""
+    import copy as _copy
+    from . import c18
+
+    cfg0 = c18.collide_machines("thorough")[name]
+    events = sorted({ev for _, st in c18.walk_states(cfg0) for ev in (st.get("on") or {})})
+    total = dict(states=0, transitions=0, executions=0, distinct_count=0, violations=[], samples=[], caps=[])
+    for idx, (desc, fn) in enumerate(c18.target_rewrites(cfg0)):
+        if only is not None and idx != only:
+            continue
+        cfg = _copy.deepcopy(cfg0)
+        fn(cfg)
+        r = explore(cfg, None, {}, label=f"{name} with {desc}", replay=dict(kind="collide", name=name, idx=idx),
+                    shape="collide", menu_events=events)
+        for k in ("states", "transitions", "executions", "distinct_count"):
+            total[k] += r[k]
+        total["violations"].extend(r["violations"])
+    total["samples"].append(dict(machine=name, respelled_machines=len(c18.target_rewrites(cfg0)), states_total=total["states"]))
+    return total
+
+
 def run_unit(unit):
     kind, payload = unit
+    if kind == "collide":
+        return run_collide(payload)
     if kind == "tree":
         cfg, nodes, events = F.universal_config(payload, shared=True)
         return explore(cfg, nodes, events, label=F.tree_str(payload), replay=dict(kind="tree", tree=payload), shape="tree")
@@ -254,6 +282,11 @@ def run_unit(unit):
 def replay(payload):
     from .c01 import _tuplify
 
+    if payload["kind"] == "collide":
+        r = run_collide(payload["name"], only=payload["idx"])
+        for v in r["violations"]:
+            print("  ", v["what"][:300])
+        return r["violations"]
     if payload["kind"] == "tree":
         unit = ("tree", _tuplify(payload["tree"]))
     elif payload["kind"] == "follow":
